@@ -196,6 +196,35 @@ def run_case(case, seed):
             if (d.get("eigenvectors") is not None) != we or (d.get("group_velocities") is not None) != wg or (d.get("dynamical_matrices") is not None) != wd:
                 return fail("option-dependence/presence", "%s: returned keys do not match the request" % what)
 
+    # results already handed out stay what they were: a later call with the same number of q-points must not write into them
+    ph.run_qpoints(qs, with_eigenvectors=True, with_group_velocities=True, with_dynamical_matrices=True)
+    held = ph.get_qpoints_dict()
+    snap = {k: np.array(v, copy=True) for k, v in held.items() if v is not None}
+    ph.run_qpoints(qs[::-1] * 0.9 + 0.013, with_eigenvectors=True, with_group_velocities=True, with_dynamical_matrices=True)
+    ph.run_mesh(MESH, is_mesh_symmetry=False, is_gamma_center=True, with_group_velocities=True)
+    trans += 3
+    for k, v in snap.items():
+        if not np.array_equal(np.asarray(held[k]), v):
+            return fail("handed-out-result-overwritten/" + k, "the %s array returned by get_qpoints_dict() changed when run_qpoints was called again with as many other q-points" % k)
+    # Gamma with a direction (NAC): the q-point list, the dynamical-matrix object and a band segment that starts or ends at Gamma
+    # along that direction report the same Gamma
+    if nac:
+        for qdir in ([0.3, -0.2, 0.5], [0.5, 0.0, 0.5], [0.0, 0.0, 1.0], [1.0, 0.0, 0.0], [0.5, 0.5, 0.0]):
+            ph.run_qpoints([[0.0, 0.0, 0.0]], with_dynamical_matrices=True, nac_q_direction=qdir)
+            d = ph.get_qpoints_dict()
+            Dq, fq = np.array(d["dynamical_matrices"][0]), np.array(d["frequencies"][0])
+            dmo = ph.dynamical_matrix
+            dmo.run([0.0, 0.0, 0.0], q_direction=qdir)
+            trans += 2
+            if np.abs(np.array(dmo.dynamical_matrix) - Dq).max() > 1e-10 * dscale:
+                return fail("gamma-direction/dynamical_matrix.run", "D(Gamma, direction %s): run_qpoints(nac_q_direction) and dynamical_matrix.run(q_direction) differ by %.3g (rel)" % (qdir, np.abs(np.array(dmo.dynamical_matrix) - Dq).max() / dscale))
+            qd = np.array(qdir, float)
+            for nm, seg, at in (("starting", [np.zeros(3), 0.25 * qd, 0.5 * qd], 0), ("ending", [0.5 * qd, 0.25 * qd, np.zeros(3)], -1)):
+                ph.run_band_structure([seg])
+                fb = np.array(ph.get_band_structure_dict()["frequencies"][0][at])
+                trans += 1
+                if np.abs(lam(fb) - lam(fq)).max() / fscale ** 2 > 1e-9:
+                    return fail("gamma-direction/band-segment-" + nm, "Gamma on a band segment %s at Gamma along %s differs from run_qpoints(Gamma, nac_q_direction=%s) by %.3g THz" % (nm, qdir, qdir, np.abs(fb - fq).max()))
     # after the direction runs: mesh, band, q-points again must still agree with the reference (no state left behind)
     ph.run_mesh(MESH, is_mesh_symmetry=False, is_gamma_center=True, with_eigenvectors=True, with_group_velocities=True)
     md2 = ph.get_mesh_dict()
@@ -203,6 +232,19 @@ def run_case(case, seed):
     for k in range(nmesh):
         if not same_gv(ref["frequencies"][k], ref["group_velocities"][k], np.array(md2["group_velocities"][k]), tol_f, 1e-6 * max(np.abs(ref["group_velocities"]).max(), 1e-6)):
             return fail("history/group-velocity/run_mesh-after-q-direction", "mesh group velocities at q=%s changed after a run_qpoints call with nac_q_direction" % qs[k].round(4).tolist())
+    # a stored mesh that is only initialised and then walked: everything that was requested is there afterwards
+    ph.init_mesh(MESH, is_mesh_symmetry=False, is_gamma_center=True, with_eigenvectors=True, with_group_velocities=True)
+    walked = [x for x in ph.mesh]
+    md4 = ph.get_mesh_dict()
+    trans += 1
+    if md4.get("group_velocities") is None or md4.get("eigenvectors") is None:
+        return fail("walked-mesh/missing", "init_mesh(with_eigenvectors, with_group_velocities) followed by iteration: get_mesh_dict() lacks %s" % [k for k in ("eigenvectors", "group_velocities") if md4.get(k) is None])
+    bad = cmp_freq(np.array([x[0] for x in walked]), "iteration over a stored mesh", slice(0, nmesh))
+    if bad:
+        return bad
+    for k in range(nmesh):
+        if not same_gv(ref["frequencies"][k], ref["group_velocities"][k], np.array(md4["group_velocities"][k]), tol_f, 1e-6 * max(np.abs(ref["group_velocities"]).max(), 1e-6)):
+            return fail("walked-mesh/group-velocity", "group velocities of a walked stored mesh differ from run_qpoints at q=%s" % qs[k].round(4).tolist())
     # iterated mesh
     try:
         ph.init_mesh(MESH, is_mesh_symmetry=False, is_gamma_center=True, with_eigenvectors=True, use_iter_mesh=True)
